@@ -546,6 +546,22 @@ class RStamp(_OpaqueStamp):
             return _Callable(lambda *a, **k: RStamp(self.t, self.nat, self.label))
         if name == "isoformat":
             return _Callable(lambda *a, **k: SOpaque(f"{self.label}.isoformat()"))
+        if name == "replace":
+            def replace(*a, **k):
+                run = interp.run
+                if not a and k.get("minute", 0) == 0 and k.get("second", 0) == 0 and k.get("microsecond", 0) == 0 and k.get("hour") in (0, 23) \
+                        and set(k) <= {"hour", "minute", "second", "microsecond", "nanosecond"}:
+                    use(interp, "pd.stamp_replace")
+                    t2 = run.fresh_real("stamp_replaced")
+                    if k["hour"] == 0:
+                        # 00:00 of the stamp's own local day: not after the stamp, less than a (25-hour) day before it
+                        run._add(z3.And(t2 <= self.t, self.t < t2 + 90000))
+                    else:
+                        # 23:00 of the stamp's own local day: less than a day after the stamp; not before it when the stamp is on the hour
+                        run._add(z3.And(t2 > self.t - 3600, t2 < self.t + 90000, z3.Implies(on_the_hour(interp), t2 >= self.t)))
+                    return RStamp(t2, self.nat, f"{self.label}.replace(hour={k['hour']})")
+                return _OpaqueStamp(f"{self.label}.replace(...)")
+            return _Callable(replace)
         return _OpaqueStamp.sym_getattr(self, interp, name, node)
 
 
@@ -571,12 +587,24 @@ class RDelta:
         raise Unsupported(f"Timedelta.{name} of a symbolic duration", node)
 
 
+assumed("pd.stamp_replace", "Timestamp.replace(hour=0 / 23, minute=0, second=0, microsecond=0) is 00:00 / 23:00 of the stamp's own local day (a local day has at most 25 hours)")
+
+
+def on_the_hour(interp):
+    """ghost: the precondition 'every label of the input is on the hour' (a global fact about the data, stated by the harness)"""
+    return interp.run.input("labels.on_the_hour", z3.BoolSort())
+
+
 assumed("pd.timedelta_days", "Timestamp - Timestamp of two timezone-aware stamps is the elapsed time between the two instants whatever their zones; "
                              "Timedelta.days is floor(seconds / 86400); astimezone / tz_convert keep the instant")
 assumed("pd.tz_convert_clock", "tz_convert(None) / tz_convert('UTC') put the labels on the UTC wall clock: month / weekday / hour read from such an index are NOT the "
                                  "local ones (modelled as unrelated values); tz_localize(None) keeps the local wall clock")
 assumed("pd.index_extremes", "index.min() / index.max() of a DatetimeIndex are labels of the index, not after / not before every label of it (NaT for "
                              "an empty index)")
+
+
+def _zb(x):
+    return z3.BoolVal(x) if isinstance(x, bool) else x
 
 
 def row_instant(interp, frame):
@@ -1483,7 +1511,14 @@ def pd_date_range(interp, args, kwargs, node, frame):
         month = run.input("row.month", z3.IntSort())
         dow = run.input("row.dayofweek", z3.IntSort())
         hour = run.input("row.hour", z3.IntSort())
-        f = RFrame(z3.If(on, 1, 0), OrderedDict(), {"month": month, "dow": dow, "hour": hour}, True, "local", label="grid")
+        uni = {"month": month, "dow": dow, "hour": hour}
+        if isinstance(start, RStamp) and isinstance(end, RStamp):
+            # both ends are known instants: an on-the-hour label is a grid point exactly when it lies between them (the grid starts on the hour)
+            t = run.input("row.label.epoch_seconds", z3.RealSort())
+            uni["t"] = t
+            run._add(z3.Implies(on, z3.And(start.t <= t, t <= end.t)))
+            run._add(z3.Implies(z3.And(on_the_hour(interp), z3.Not(_zb(start.nat)), z3.Not(_zb(end.nat)), start.t <= t, t <= end.t), on))
+        f = RFrame(z3.If(on, 1, 0), OrderedDict(), uni, True, "local", label="grid")
         f.is_grid = True
         return RIndex(f)
     return NotImplemented
@@ -1609,6 +1644,10 @@ def install():
         nn = _not(cell.is_nan())
         interp.run._add(z3.Implies(z3.And(f.member(), to_z3(nn) if not isinstance(nn, bool) else z3.BoolVal(nn)), h))
         return h
+
+    @libmodels.api("labels_on_the_hour")
+    def _labels_on_the_hour(interp, args, kwargs, node, frame):
+        return on_the_hour(interp)
 
     @libmodels.api("label_seconds")
     def _label_seconds(interp, args, kwargs, node, frame):
